@@ -13,6 +13,14 @@ from .proles import ParserRoles
 KINDS = ["header", "exists", "size", "envelope", "address", "body", "currentdate"]
 
 
+def _what(e):
+    """stable name of the value a comma test looks at: the slot it comes from (`key-list`), else the expression"""
+    for n in ast.walk(e):
+        if isinstance(n, ast.Subscript) and isinstance(n.slice, ast.Constant) and isinstance(n.slice.value, str):
+            return n.slice.value
+    return norm(e)[:40]
+
+
 def run(ctx):
     R = FactoryRoles(ctx, "B")
     PR = ParserRoles(ctx, "B")
@@ -151,7 +159,7 @@ def run(ctx):
                     and x.left.value == ",":
                 hit = True
                 n += 1
-                ctx.violation("B2", f, "comma-decides:%s" % norm(x)[:50], "%s decides `list or single string` from the presence of a comma (%s): a "
+                ctx.violation("B2", f, "comma-decides:%s" % _what(x.comparators[0]), "%s decides `list or single string` from the presence of a comma (%s): a "
                               "string value containing a comma is read back as several values" % (f.qualname, norm(x)[:50]), node=x,
                               witness="(\"Subject\", \":is\", \"a,b\") reads back as (\"Subject\", \":is\", \"a\", \"b\")")
             if isinstance(x, ast.Call) and isinstance(x.func, ast.Attribute) and x.func.attr == "split" and x.args \
